@@ -1,9 +1,17 @@
 package govc
 
 import (
+	"encoding/json"
+	"fmt"
 	"os"
 	"path/filepath"
+	"sort"
+	"strconv"
+	"strings"
+	"time"
 )
+
+var VerifDir = "/verif"
 
 // LoadRepo loads the packages of the repository and all contracts.
 func LoadRepo(repo string) (*Engine, error) {
@@ -11,21 +19,666 @@ func LoadRepo(repo string) (*Engine, error) {
 	if err := db.LoadRepoContracts(repo, ModPath); err != nil {
 		return nil, err
 	}
-	spec := filepath.Join(filepath.Dir(os.Args[0]), "..", "contracts", "stdlib.spec")
-	if _, err := os.Stat(spec); err != nil {
-		spec = "/verif/contracts/stdlib.spec"
-	}
+	spec := filepath.Join(VerifDir, "contracts", "stdlib.spec")
 	if _, err := os.Stat(spec); err == nil {
 		if err := db.LoadFile(spec, "", true); err != nil {
 			return nil, err
 		}
 	}
+	start := time.Now()
 	eng, err := Load(repo, []string{"./cmd/...", "./lambda/..."})
 	if err != nil {
 		return nil, err
 	}
+	eng.LoadSeconds = time.Since(start).Seconds()
 	eng.DB = db
 	return eng, nil
 }
 
-func CheckMain(args []string) int { return 2 }
+type PropCfg struct {
+	ID         string   `json:"id"`
+	Functions  []string `json:"functions"`  // patterns over full function names ('*' = any run of characters)
+	Exclude    []string `json:"exclude"`    // patterns removed again
+	Lemmas     []string `json:"lemmas"`     // lemma name patterns
+	Consts     []string `json:"consts"`     // const claim names
+	Residue    []string `json:"residue"`    // what stays undecided (copied into evidence.assumptions)
+	Technique  string   `json:"technique"`
+	NoContract bool     `json:"no_contract"` // include matching functions without contract (zero-annotation sweep)
+}
+
+func wildcard(pat, s string) bool {
+	parts := strings.Split(pat, "*")
+	if len(parts) == 1 {
+		return pat == s
+	}
+	if !strings.HasPrefix(s, parts[0]) {
+		return false
+	}
+	s = s[len(parts[0]):]
+	for i := 1; i < len(parts)-1; i++ {
+		k := strings.Index(s, parts[i])
+		if k < 0 {
+			return false
+		}
+		s = s[k+len(parts[i]):]
+	}
+	return strings.HasSuffix(s, parts[len(parts)-1])
+}
+
+func anyMatch(pats []string, s string) bool {
+	for _, p := range pats {
+		if wildcard(p, s) {
+			return true
+		}
+	}
+	return false
+}
+
+type finding struct {
+	Kind       string // finding | fixed
+	Property   string
+	Obligation string
+	Text       string
+}
+
+func loadFindings(path string) []finding {
+	b, err := os.ReadFile(path)
+	if err != nil {
+		return nil
+	}
+	var out []finding
+	for _, l := range strings.Split(string(b), "\n") {
+		l = strings.TrimSpace(l)
+		if l == "" || strings.HasPrefix(l, "#") {
+			continue
+		}
+		var f finding
+		switch {
+		case strings.HasPrefix(l, "finding:"):
+			f.Kind = "finding"
+			l = strings.TrimSpace(strings.TrimPrefix(l, "finding:"))
+		case strings.HasPrefix(l, "fixed:"):
+			f.Kind = "fixed"
+			l = strings.TrimSpace(strings.TrimPrefix(l, "fixed:"))
+		default:
+			continue
+		}
+		for _, tok := range strings.Fields(l) {
+			if strings.HasPrefix(tok, "property=") {
+				f.Property = strings.TrimPrefix(tok, "property=")
+			}
+		}
+		if i := strings.Index(l, "obligation="); i >= 0 {
+			rest := l[i+len("obligation="):]
+			// obligation names may contain spaces inside parentheses; they end at " :: "
+			if j := strings.Index(rest, " :: "); j >= 0 {
+				f.Obligation = strings.TrimSpace(rest[:j])
+				f.Text = strings.TrimSpace(rest[j+4:])
+			} else {
+				f.Obligation = strings.TrimSpace(rest)
+			}
+		}
+		out = append(out, f)
+	}
+	return out
+}
+
+type evidence struct {
+	PropertyID  string                 `json:"property_id"`
+	Tier        string                 `json:"tier"`
+	Seed        int                    `json:"seed"`
+	Level       string                 `json:"level"`
+	Coverage    map[string]interface{} `json:"coverage"`
+	Assumptions []string               `json:"assumptions"`
+	WallS       float64                `json:"wall_s"`
+	Violations  int                    `json:"violations"`
+}
+
+type replayFile struct {
+	Property   string            `json:"property"`
+	Obligation string            `json:"obligation"`
+	Function   string            `json:"function"`
+	Clause     string            `json:"clause"`
+	Site       string            `json:"site"`
+	Status     string            `json:"solver_status"`
+	Regression bool              `json:"was_discharged_in_baseline"`
+	Model      map[string]string `json:"model"`
+	Solver     string            `json:"solver_output"`
+	SMTFile    string            `json:"smt_file"`
+	ReplayPkg  string            `json:"replay_pkg,omitempty"`
+	ReplayTest string            `json:"replay_test_source,omitempty"`
+	ReplayOut  string            `json:"replay_output,omitempty"`
+	Reproduced bool              `json:"reproduced_on_real_code"`
+	RepoDir    string            `json:"repo_dir"`
+}
+
+func CheckMain(args []string) int {
+	if len(args) > 0 && args[0] == "replay" {
+		if len(args) < 2 {
+			fmt.Fprintln(os.Stderr, "usage: check replay <file>")
+			return 2
+		}
+		return replayMain(args[1])
+	}
+	if len(args) < 1 {
+		fmt.Fprintln(os.Stderr, "usage: check <property> [--tier quick|thorough] [--repo dir] [--update-baseline]")
+		return 2
+	}
+	id := args[0]
+	tier := os.Getenv("VERIF_TIER")
+	if tier == "" {
+		tier = "quick"
+	}
+	repo := "/repo"
+	update := false
+	quiet := false
+	noEvidence := false
+	for i := 1; i < len(args); i++ {
+		switch args[i] {
+		case "--tier":
+			i++
+			tier = args[i]
+		case "--repo":
+			i++
+			repo = args[i]
+		case "--update-baseline":
+			update = true
+		case "--quiet":
+			quiet = true
+		case "--no-evidence":
+			noEvidence = true
+		}
+	}
+	seed, _ := strconv.Atoi(os.Getenv("VERIF_SEED"))
+	r := RunCheck(id, tier, repo, seed, update, quiet, !noEvidence)
+	return r.Exit
+}
+
+type CheckResult struct {
+	Exit        int
+	Failed      []string // names of failed (non-known) obligations
+	Known       []string
+	Obligations int
+	Discharged  int
+	Lines       []string
+}
+
+func loadProps() (map[string]*PropCfg, error) {
+	b, err := os.ReadFile(filepath.Join(VerifDir, "props.json"))
+	if err != nil {
+		return nil, err
+	}
+	var list []*PropCfg
+	if err := json.Unmarshal(b, &list); err != nil {
+		return nil, err
+	}
+	m := map[string]*PropCfg{}
+	for _, p := range list {
+		m[p.ID] = p
+	}
+	return m, nil
+}
+
+func RunCheck(id, tier, repo string, seed int, updateBaseline, quiet, writeEvidence bool) CheckResult {
+	start := time.Now()
+	say := func(f string, a ...interface{}) {
+		if !quiet {
+			fmt.Printf(f+"\n", a...)
+		}
+	}
+	props, err := loadProps()
+	if err != nil {
+		fmt.Fprintln(os.Stderr, "cannot load props.json:", err)
+		return CheckResult{Exit: 2}
+	}
+	cfg, ok := props[id]
+	if !ok {
+		fmt.Fprintln(os.Stderr, "unknown property", id)
+		return CheckResult{Exit: 2}
+	}
+	eng, err := LoadRepo(repo)
+	if err != nil {
+		fmt.Fprintf(os.Stderr, "UNDECIDED property=%s: %v\n", id, err)
+		return CheckResult{Exit: 2}
+	}
+	// functions under contract for this property
+	var names []string
+	for name := range eng.Funcs {
+		if anyMatch(cfg.Functions, name) && !anyMatch(cfg.Exclude, name) {
+			if _, has := eng.DB.Funcs[name]; has || cfg.NoContract {
+				names = append(names, name)
+			}
+		}
+	}
+	sort.Strings(names)
+	// contracts whose function disappeared: the anchor is missing, nothing can be decided about it
+	var missing []string
+	for cname, fc := range eng.DB.Funcs {
+		if fc.Assumed {
+			continue
+		}
+		if anyMatch(cfg.Functions, cname) && !anyMatch(cfg.Exclude, cname) {
+			if _, ok := eng.Funcs[cname]; !ok {
+				missing = append(missing, cname)
+			}
+		}
+	}
+	sort.Strings(missing)
+	if len(missing) > 0 {
+		fmt.Printf("UNDECIDED property=%s: functions under contract no longer exist: %s\n", id, strings.Join(missing, ", "))
+		return CheckResult{Exit: 2}
+	}
+	if len(names) == 0 {
+		fmt.Printf("UNDECIDED property=%s: no function under contract matches\n", id)
+		return CheckResult{Exit: 2}
+	}
+	var units []*Unit
+	genStart := time.Now()
+	for _, n := range names {
+		units = append(units, eng.GenUnit(eng.Funcs[n]))
+	}
+	units = append(units, eng.constUnit(cfg)...)
+	genS := time.Since(genStart).Seconds()
+	var unsupported []string
+	for _, u := range units {
+		for _, x := range u.Unsupported {
+			unsupported = append(unsupported, u.Name+": "+x)
+		}
+	}
+	if len(unsupported) > 0 {
+		fmt.Printf("UNDECIDED property=%s: outside the verified subset / contract does not type-check:\n  %s\n", id, strings.Join(unsupported, "\n  "))
+		return CheckResult{Exit: 2}
+	}
+	tmo := 10
+	allSolvers := false
+	if tier == "thorough" {
+		tmo = 60
+		allSolvers = true
+	}
+	dir, err := os.MkdirTemp("", "govc-"+id+"-")
+	if err != nil {
+		fmt.Fprintln(os.Stderr, err)
+		return CheckResult{Exit: 2}
+	}
+	defer os.RemoveAll(dir)
+	solveStart := time.Now()
+	results := SolveAll(units, dir, DefaultSolvers(tmo), 12, allSolvers)
+	solveWall := time.Since(solveStart).Seconds()
+
+	// baseline and known findings
+	basePath := filepath.Join(VerifDir, "baseline", id+".json")
+	baseline := map[string]bool{}
+	if b, err := os.ReadFile(basePath); err == nil {
+		var l []string
+		json.Unmarshal(b, &l)
+		for _, n := range l {
+			baseline[n] = true
+		}
+	}
+	findings := loadFindings(filepath.Join(VerifDir, "known_findings.txt"))
+	known := map[string]finding{}
+	for _, f := range findings {
+		if f.Kind == "finding" && f.Property == id {
+			known[f.Obligation] = f
+		}
+	}
+
+	res := CheckResult{}
+	var failed []ObResult
+	var knownHit []string
+	var vacuityBad []string
+	generated := map[string]bool{}
+	solverTime := 0.0
+	smtBytes := 0
+	bySolver := map[string]int{}
+	var okNames []string
+	nParts := 0
+	for _, r := range results {
+		generated[r.Ob.Name] = true
+		solverTime += r.Seconds
+		smtBytes += r.Bytes
+		nParts += len(r.Ob.Parts)
+		for s, n := range r.Solvers {
+			if s != "" {
+				bySolver[s] += n
+			}
+		}
+		if r.Ob.Class == "vacuity" {
+			if r.Res.Status == "unsat" {
+				vacuityBad = append(vacuityBad, r.Ob.Name)
+			}
+			continue
+		}
+		if r.Res.Status == "disagree" {
+			fmt.Printf("UNDECIDED property=%s: solvers disagree on %s (%v)\n", id, r.Ob.Name, r.Res.All)
+			res.Exit = 2
+			continue
+		}
+		if _, isKnown := known[r.Ob.Name]; isKnown {
+			if !r.OK {
+				knownHit = append(knownHit, r.Ob.Name)
+				continue
+			}
+			// a listed finding that no longer fails is simply discharged
+		}
+		res.Obligations++
+		if r.OK {
+			res.Discharged++
+			okNames = append(okNames, r.Ob.Name)
+		} else {
+			failed = append(failed, r)
+		}
+	}
+	sort.Strings(okNames)
+	if updateBaseline {
+		os.MkdirAll(filepath.Dir(basePath), 0o755)
+		b, _ := json.MarshalIndent(okNames, "", " ")
+		os.WriteFile(basePath, append(b, '\n'), 0o644)
+		say("baseline written: %d obligations", len(okNames))
+		for n := range generated {
+			baseline[n] = true
+		}
+	}
+	// anchors: post/inv/typeinv/const/lemma obligations of the baseline must be generated again
+	var anchorsMissing []string
+	for n := range baseline {
+		if !generated[n] && (strings.Contains(n, "/post(") || strings.Contains(n, "/inv(") || strings.Contains(n, "/const(") || strings.Contains(n, "/lemma(") || strings.Contains(n, "/typeinv(")) {
+			anchorsMissing = append(anchorsMissing, n)
+		}
+	}
+	sort.Strings(anchorsMissing)
+
+	outDir := filepath.Join(VerifDir, "out", id)
+	os.MkdirAll(outDir, 0o755)
+	for _, n := range knownHit {
+		line := fmt.Sprintf("KNOWN-FINDING: property=%s %s :: %s", id, n, known[n].Text)
+		fmt.Println(line)
+		res.Lines = append(res.Lines, line)
+		res.Known = append(res.Known, n)
+	}
+	for _, r := range failed {
+		rf := buildReplay(eng, id, r, baseline[r.Ob.Name], outDir, repo)
+		suffix := ""
+		if !rf.Reproduced {
+			suffix = " no-failing-input-found"
+		}
+		path := filepath.Join(outDir, sanitizeFile(r.Ob.Name)+".json")
+		b, _ := json.MarshalIndent(rf, "", " ")
+		os.WriteFile(path, b, 0o644)
+		line := fmt.Sprintf("VIOLATION property=%s replay=%s%s", id, path, suffix)
+		fmt.Println(line)
+		say("  obligation %s [%s] clause: %s", r.Ob.Name, r.Res.Status, r.Ob.Src)
+		res.Lines = append(res.Lines, line)
+		res.Failed = append(res.Failed, r.Ob.Name)
+	}
+	if len(failed) > 0 {
+		res.Exit = 1
+	}
+	if len(vacuityBad) > 0 && res.Exit == 0 {
+		fmt.Printf("UNDECIDED property=%s: vacuous preconditions or unreachable guards: %s\n", id, strings.Join(vacuityBad, ", "))
+		res.Exit = 2
+	}
+	if len(anchorsMissing) > 0 && res.Exit == 0 {
+		fmt.Printf("UNDECIDED property=%s: baseline obligations no longer generated (anchor missing): %s\n", id, strings.Join(anchorsMissing, ", "))
+		res.Exit = 2
+	}
+	if res.Obligations == 0 && res.Exit == 0 {
+		fmt.Printf("UNDECIDED property=%s: zero obligations generated\n", id)
+		res.Exit = 2
+	}
+
+	// evidence
+	if writeEvidence {
+		var fnInfo []map[string]interface{}
+		var assumptions []string
+		seenA := map[string]bool{}
+		addA := func(s string) {
+			if !seenA[s] {
+				seenA[s] = true
+				assumptions = append(assumptions, s)
+			}
+		}
+		for _, r := range cfg.Residue {
+			addA("undecided residue: " + r)
+		}
+		for _, u := range units {
+			nob := 0
+			for _, o := range u.Obls {
+				if o.Class != "vacuity" {
+					nob++
+				}
+			}
+			fnInfo = append(fnInfo, map[string]interface{}{"function": u.Name, "ssa_blocks": u.Blocks, "ssa_instrs": u.Instrs, "obligations": nob})
+			for _, a := range u.Assumptions {
+				addA(a)
+			}
+			for _, w := range u.Warnings {
+				addA("abstraction: " + u.Name + ": " + w)
+			}
+		}
+		for _, a := range trustedAssumptions() {
+			addA(a)
+		}
+		var samples []map[string]string
+		for _, r := range results {
+			if r.Ob.Class == "post" && len(samples) < 5 {
+				samples = append(samples, map[string]string{"obligation": r.Ob.Name, "clause": r.Ob.Src, "status": r.Res.Status, "solver": r.Res.Solver,
+					"goal": truncate(r.Ob.Parts[0].Goal, 600)})
+			}
+		}
+		var failedNames []string
+		for _, r := range failed {
+			failedNames = append(failedNames, r.Ob.Name)
+		}
+		cov := map[string]interface{}{
+			"obligations":             res.Obligations,
+			"discharged":              res.Discharged,
+			"checker_cmd":             fmt.Sprintf("/verif/check %s --tier %s", id, tier),
+			"trusted_base":            trustedBase(),
+			"functions_under_contract": fnInfo,
+			"functions":               len(names),
+			"obligation_parts":        nParts,
+			"solver_seconds_total":    round2(solverTime),
+			"solver_wall_s":           round2(solveWall),
+			"vcgen_s":                 round2(genS),
+			"load_s":                  round2(eng.LoadSeconds),
+			"smt_bytes":               smtBytes,
+			"discharged_by_solver":    bySolver,
+			"vacuity_guards":          countVacuity(results),
+			"vacuity_failed":          vacuityBad,
+			"known_findings_hit":      knownHit,
+			"failed_obligations":      failedNames,
+			"baseline_obligations":    len(baseline),
+			"samples":                 samples,
+			"technique":               cfg.Technique,
+			"integers":                "Go integers are mathematical Ints with explicit wrap-around at the type's width on + - * and conversions (not treated as unbounded)",
+			"contract_files":          eng.DB.Files,
+		}
+		ev := evidence{PropertyID: id, Tier: tier, Seed: seed, Level: "proof", Coverage: cov, Assumptions: assumptions, WallS: round2(time.Since(start).Seconds()), Violations: len(failed)}
+		b, _ := json.MarshalIndent(ev, "", " ")
+		os.MkdirAll(filepath.Join(VerifDir, "evidence"), 0o755)
+		os.WriteFile(filepath.Join(VerifDir, "evidence", id+".json"), append(b, '\n'), 0o644)
+	}
+	say("property %s: %d functions, %d obligations (%d parts), %d discharged, %d failed, %d known findings; load %.1fs gen %.1fs solve %.1fs",
+		id, len(names), res.Obligations, nParts, res.Discharged, len(failed), len(knownHit), eng.LoadSeconds, genS, solveWall)
+	return res
+}
+
+func round2(f float64) float64 { return float64(int(f*100+0.5)) / 100 }
+
+func countVacuity(rs []ObResult) int {
+	n := 0
+	for _, r := range rs {
+		if r.Ob.Class == "vacuity" {
+			n++
+		}
+	}
+	return n
+}
+
+func trustedBase() []string {
+	return []string{
+		"golang.org/x/tools/go/ssa v0.29.0 (translation of /repo's Go source to SSA)",
+		"govc encoder (SSA -> SMT-LIB; /verif/govc)",
+		"z3 4.8.12, z3 5.1.0, cvc5 1.0.3 (an obligation is discharged by the first solver answering unsat; thorough tier requires agreement)",
+		"assumed contracts of library functions in /verif/contracts/stdlib.spec",
+		"monitor meta-theorem: sync.Cond.Wait atomically releases the lock and parks; Broadcast wakes every parked goroutine",
+		"closed-world interface dispatch over the production import closure of cmd/aws-lambda-rie",
+	}
+}
+
+func trustedAssumptions() []string {
+	return []string{
+		"partial correctness: termination, deadlock freedom, fairness and wall-clock bounds are not proved",
+		"sequential consistency for lock-protected data; postconditions over monitor-protected state of several objects assume no interference between the atomic sections of one call",
+		"nil dereferences, index errors and failed type assertions are assumed absent in functions without 'safety on' (a panic is not a return, so postconditions say nothing about it)",
+		"strings are modelled as byte sequences in the SMT string theory; float64 arithmetic is uninterpreted",
+		"allocation never fails; no stack overflow",
+	}
+}
+
+// ---- constant claims ----
+
+func (e *Engine) constUnit(cfg *PropCfg) []*Unit {
+	var out []*Unit
+	for _, cc := range e.DB.Consts {
+		if !anyMatch(cfg.Consts, cc.Name) && !anyMatch(cfg.Consts, cc.Pkg+"."+cc.Name) {
+			continue
+		}
+		u := &Unit{Name: shortName(cc.Pkg) + ".const", Sorts: newSorts(e)}
+		g := &vcgen{eng: e, u: u, s: u.Sorts, st: &State{m: map[string]string{}}, pc: "true", varSort: map[string]string{}, declared: map[string]bool{},
+			embIDs: map[string]int{}, callOrd: map[string]int{}, freshObjs: map[string]bool{}}
+		g.stateVar("G.alloc", "Int")
+		env := &cenv{g: g, vars: map[string]cval{}, cur: g.st, ctx: "const " + cc.Name}
+		if p, ok := e.AllPkgs[cc.Pkg]; ok {
+			env.pkg = p.Types
+		}
+		t, err := env.EvalBool(cc.Expr)
+		if err != nil {
+			u.Unsupported = append(u.Unsupported, err.Error())
+		} else {
+			g.oblige("const", cc.Name, t, cc.Src)
+		}
+		out = append(out, u)
+	}
+	return out
+}
+
+// ---- replay ----
+
+func parseModel(out string, wit []Wit) map[string]string {
+	m := map[string]string{}
+	i := strings.Index(out, "\n")
+	if i < 0 {
+		return m
+	}
+	body := strings.TrimSpace(out[i+1:])
+	// body = ((term value) (term value) ...)
+	vals := splitPairs(body)
+	for k, v := range vals {
+		if k < len(wit) {
+			m[wit[k].Label] = v
+		}
+	}
+	return m
+}
+
+// splitPairs extracts the value part of each (term value) pair of a get-value answer.
+func splitPairs(s string) []string {
+	var out []string
+	s = strings.TrimSpace(s)
+	if !strings.HasPrefix(s, "(") {
+		return out
+	}
+	depth := 0
+	start := -1
+	for i := 0; i < len(s); i++ {
+		switch s[i] {
+		case '"':
+			// skip string literal
+			j := i + 1
+			for j < len(s) {
+				if s[j] == '"' {
+					if j+1 < len(s) && s[j+1] == '"' {
+						j += 2
+						continue
+					}
+					break
+				}
+				j++
+			}
+			i = j
+		case '|':
+			j := strings.IndexByte(s[i+1:], '|')
+			if j >= 0 {
+				i += j + 1
+			}
+		case '(':
+			depth++
+			if depth == 2 {
+				start = i
+			}
+		case ')':
+			if depth == 2 && start >= 0 {
+				pair := s[start+1 : i]
+				out = append(out, pairValue(pair))
+				start = -1
+			}
+			depth--
+		}
+	}
+	return out
+}
+
+func pairValue(pair string) string {
+	pair = strings.TrimSpace(pair)
+	// the term is either |quoted|, an atom, or a parenthesised expression
+	i := 0
+	switch {
+	case strings.HasPrefix(pair, "|"):
+		i = strings.IndexByte(pair[1:], '|') + 2
+	case strings.HasPrefix(pair, "("):
+		d := 0
+		for k := 0; k < len(pair); k++ {
+			if pair[k] == '(' {
+				d++
+			} else if pair[k] == ')' {
+				d--
+				if d == 0 {
+					i = k + 1
+					break
+				}
+			}
+		}
+	default:
+		i = strings.IndexAny(pair, " \t\n")
+		if i < 0 {
+			return ""
+		}
+	}
+	v := strings.TrimSpace(pair[i:])
+	// normalise (- 5) to -5
+	if strings.HasPrefix(v, "(- ") && strings.HasSuffix(v, ")") {
+		v = "-" + strings.TrimSpace(v[3:len(v)-1])
+	}
+	return v
+}
+
+func buildReplay(eng *Engine, id string, r ObResult, regression bool, outDir, repo string) *replayFile {
+	rf := &replayFile{Property: id, Obligation: r.Ob.Name, Function: r.Ob.Func, Clause: r.Ob.Src, Status: r.Res.Status,
+		Regression: regression, Solver: truncate(r.Res.Output, 20000), RepoDir: repo, Model: map[string]string{}}
+	if r.FailPart >= 0 && r.FailPart < len(r.Ob.Parts) {
+		part := r.Ob.Parts[r.FailPart]
+		rf.Site = part.Site
+		smt := filepath.Join(outDir, sanitizeFile(r.Ob.Name)+".smt2")
+		os.WriteFile(smt, []byte(r.U.Script(r.Ob, r.FailPart)), 0o644)
+		rf.SMTFile = smt
+		if r.Res.Status == "sat" {
+			rf.Model = parseModel(r.Res.Model, part.Witness)
+		}
+	}
+	if r.Res.Status == "sat" {
+		runReplayTemplate(rf)
+	}
+	return rf
+}
